@@ -295,7 +295,7 @@ prop("C18",
             "gofrs/flock TryLock/Lock/Unlock -> one Boolean per path"],
      harnesses=[
          H("txfile.VerifPathLock", "lock held exactly while a File is open; second Open fails with a lock error; after Close and after every failing Open the lock is free, no descriptor is left open, the path opens again", "3 steps x 6 step kinds",
-           thorough={"params": {"steps": 4}, "max_paths": 400000, "budget": "1200s"}),
+           thorough={"params": {"steps": 4}, "max_paths": 400000, "budget": "1200s"}, replayable_params={"nofault": 1}),
          H("txfile.VerifPathLockWait", "FlagWaitLock: the second Open blocks until Close, then succeeds; a plain Open meanwhile fails", "2 goroutines"),
          H("txfile.VerifPathLockClose", "while File.Close waits for an active transaction the path lock stays held and a second Open fails", "read-only / write transaction"),
      ])
